@@ -119,7 +119,7 @@ func Routes(c explore.Chooser) *prog.Program {
 
 	verb := s.Pick("r0.verb", "GET", "POST", "PUT", "DELETE")
 	pathForm := s.Pick("r0.path", "literal", "local-const", "package-const", "imported-const", "concat-literal-const", "concat-three", "typed-const")
-	handlerForm := s.Pick("r0.handler", "method-value", "method-pointer-var", "package-func", "func-literal", "method-of-other-file", "parenthesised")
+	handlerForm := s.Pick("r0.handler", "method-value", "method-pointer-var", "package-func", "func-literal", "method-of-other-file", "parenthesised", "method-after-homonym", "func-after-homonym-method")
 	ins := routeInputs()
 	var chosen []inputStmt
 	for i := 0; i < 3; i++ {
@@ -194,6 +194,13 @@ func Routes(c explore.Chooser) *prog.Program {
 	case "method-of-other-file":
 		handlerExpr, r0.Handler = "ct.h0", "h0"
 		extraFile.WriteString("func (ct controller) h0(c echo.Context) error {\n" + bodySrc + "}\n")
+	case "method-after-homonym":
+		// a method of the same name on another receiver type, declared earlier in the same file
+		handlerExpr, r0.Handler = "ct.h0", "h0"
+		handlerDecl = "func (otherRouter) h0(c echo.Context) error {\n\tvar nb int\n\treturn c.JSON(200, nb)\n}\n\nfunc (ct controller) h0(c echo.Context) error {\n" + bodySrc + "}\n"
+	case "func-after-homonym-method":
+		handlerExpr, r0.Handler = "h0", "h0"
+		handlerDecl = "func (otherRouter) h0(c echo.Context) error {\n\tvar nb int\n\treturn c.JSON(200, nb)\n}\n\nfunc h0(c echo.Context) error {\n\tvar ct controller\n\t_ = ct\n" + bodySrc + "}\n"
 	case "parenthesised":
 		handlerExpr, r0.Handler = "(ct.h0)", "h0"
 		handlerDecl = "func (ct controller) h0(c echo.Context) error {\n" + bodySrc + "}\n"
